@@ -25,7 +25,8 @@ func newMidiArgs() *midiArgs {
 	}
 }
 
-func (m *midiArgs) writeWhenUpdated(w midix.Writer) {
+func (m *midiArgs) writeWhenUpdated(w midix.Writer) error {
+	var err error
 	m.bpm.WhenUpdated(func(v op.BPM) {
 		w.Tempo(int(v))
 	})
@@ -33,7 +34,11 @@ func (m *midiArgs) writeWhenUpdated(w midix.Writer) {
 		w.Meter(uint8(v.Num), uint8(v.Denom))
 	})
 	m.key.WhenUpdated(func(v op.Key) {
-		scale := op.MustNewScale(v)
+		scale, sErr := op.NewScale(v)
+		if sErr != nil {
+			err = sErr
+			return
+		}
 		key := uint8(scale.Tonic().Semitone())
 		isMajor := !scale.Key.Minor
 		num := uint8(scale.Flat + scale.Sharp)
@@ -51,6 +56,7 @@ func (m *midiArgs) writeWhenUpdated(w midix.Writer) {
 			w.Marker(x)
 		}
 	})
+	return err
 }
 
 func (m midiArgs) getKey() op.Key     { return m.key.Unwrap() }
